@@ -338,6 +338,8 @@ where
 
     /// Remove key-value pair from the CAS
     pub fn remove(&self, key: &K) -> Result<bool, LibError> {
+        #[cfg(feature = "verif-hooks")]
+        crate::verif::point("remove.before_scan");
         if self.index.read_state().contains_key(key) {
             let delete_fn = |hashes: &[BlobHash]| -> Result<(), CasManagerError> {
                 self.cas_manager.delete_blobs(hashes).map(|_| ())
@@ -360,6 +362,8 @@ where
     where
         R: RangeBounds<K> + Debug + Clone,
     {
+        #[cfg(feature = "verif-hooks")]
+        crate::verif::point("remove_range.before_scan");
         let keys_to_remove: Vec<K> = {
             let state = self.index.read_state();
             state.range(range.clone()).map(|(key, _)| key.clone()).collect()
@@ -398,6 +402,8 @@ where
     where
         F: FnOnce(&IndexStateItem, File) -> Result<T, CasManagerError>,
     {
+        #[cfg(feature = "verif-hooks")]
+        crate::verif::point("read.before_lookup");
         let (item, opened) = {
             let state = self.index.read_state();
             let Some(item) = state.get_item(key) else {
@@ -407,6 +413,8 @@ where
             (item, opened)
         };
 
+        #[cfg(feature = "verif-hooks")]
+        crate::verif::point("read.after_open");
         match opened.and_then(|file| f(&item, file)) {
             Ok(result) => Ok(Some(result)),
             Err(cas_error) => {
